@@ -232,7 +232,7 @@ def render_support_impls(decls):
     return [l for l in out if l]
 
 
-def render_run_fn(d, table, surface):
+def render_run_fn(d, table, surface, with_const=True):
     """The runner function of one accepted declaration. `surface`: set of method names the real expansion
     contains (from the dump); only those are called."""
     name = d["name"]
@@ -250,7 +250,8 @@ def render_run_fn(d, table, surface):
         L.append("        let r = support::catch(|| %s);" % unmk_expr(size, "v.raw_value()"))
         L.append("        o.line(&format!(\"op %s eraw {} = {}\", support::Show::show(&v), support::res(r)));" % name)
         L.append("    }")
-        L.extend(render_const_items(d, table, surface))
+        if with_const:
+            L.extend(render_const_items(d, table, surface))
         L.append("}")
         return L
     N = base_width(d)
@@ -350,7 +351,8 @@ def render_run_fn(d, table, surface):
         L.append("        o.line(&format!(\"op %s build{}{} = {}\", if args.is_empty() { \"\" } else { \" \" }, args.join(\" \"), support::res(r)));" % name)
         L.append("    }")
     # const context (C15)
-    L.extend(render_const_items(d, table, surface))
+    if with_const:
+        L.extend(render_const_items(d, table, surface))
     # debug
     if d["debug"]:
         L.append("    for &raw in support::dbg_raws(%d, o.seed).iter() {" % N)
